@@ -5,7 +5,7 @@ PROP_FILES = ['Properties/C13']
 EXTRACT_FILES = ['Extract/Mux']
 EXTRA_OBLIGATION_FILES = ['Proofs/MuxGuards']
 
-PROFILES = ['data', 'close', 'mixed', 'fault']
+PROFILES = ['data', 'close', 'mixed', 'fault', 'sendfail']
 N_QUICK, N_THOROUGH = 260, 4000
 RULE = 'wire tap on both endpoints of seeded lock-step scenarios (every message decoded with the session key): per direction of each stream the emitted (stream id, sequence number, closing, length) log; plus the concurrent stress driver (Write/ReadFrom/Close from several goroutines under -race); distinct = distinct concrete label sequences'
 ORACLE = muxlib.oracle_c13
